@@ -36,7 +36,9 @@ func parse[N Node](ps *parser, n N) parsed[N] {
 	n.n().From = begin
 	n.parse(ps)
 	n.n().To = ps.pos
-	n.n().sourceText = ps.src[begin:ps.pos]
+	// A node's parse method may move From (Redir does so when it has a left
+	// operand), so take the source text from the node's final range.
+	n.n().sourceText = ps.src[n.n().From:ps.pos]
 	return parsed[N]{n}
 }
 
